@@ -55,6 +55,20 @@ CLAIMS = {
         "enumeration specification (listed order for references, ascending for roving).",
    note="Trusted: pyvc executor, scipy signatures/shape behaviour as uninterpreted functions, deepcopy, enumeration lemmas. One open finding (duration T after decimation) is pinned by existing tests and listed in known_findings.jsonl.",
    design="6 (C14)", technique="contract-based deductive verification: representation invariant + per-operation contracts (pyvc AST->VC, z3), native replay of histories against a scipy model"),
+ "C13": dict(
+   text="Deductive proof from the real source of fdd.SD_est, for symbolic channel counts, record length, nxseg, overlap and dt, that the result is exactly the prescribed scipy "
+        "estimate: 'per' = csd(x = data rows, y = reference rows (pairing/conjugation), fs = 1/dt, Hann, nperseg = nxseg, noverlap = nxseg*pov) returned unchanged with scipy's grid; "
+        "'cor' = boxcar csd of half segments zero-padded to nxseg -> irfft -> one-sided exponential window (1 % at the end) -> rfft with the grid k/(dt*nxseg) and nxseg//2+1 lines; "
+        "and that FDD.run / pLSCF.run hand it data.T, dt, nxseg, method and pov unchanged. Bilinearity/gain^2 follow from csd's bilinearity.",
+   note="Proof modulo scipy: csd, rfft, irfft, windows.exponential are uninterpreted functions of their operands and parameters (assumption A6 says what csd is); reals for floats.",
+   design="6 (C13)", technique="contract-based deductive verification: AST->VC generation (pyvc) + z3 with foreign kernels as uninterpreted functions; native replay against direct scipy calls"),
+ "C04": dict(
+   text="Deductive proof from the real source of fdd.SD_PreGER (2 setups enumerated; reference/roving counts, lengths, nxseg, pov, fs symbolic; loop invariant over the frequency lines): "
+        "the frequency vector is the estimator's, the reference block is the mean over setups of the reference auto/cross spectra, each roving block is that setup's "
+        "roving-to-reference spectra times the inverse of its own reference block times the mean block, stacked references first then setups in order, every spectrum estimated by SD_est "
+        "with the caller's nxseg, overlap and estimator; and FDD_MS/EFDD_MS/pLSCF_MS.run forward data, fs, nxseg, method and pov.",
+   note="Proof modulo scipy/numpy.linalg (uninterpreted kernels, matrix-term level) and modulo the SD_est contract proved under C13; the identical-reference corollary is a lemma over this structure.",
+   design="6 (C04)", technique="contract-based deductive verification: AST->VC generation (pyvc) + z3, matrix terms with an extensionality lemma, loop invariant; native replay"),
 }
 NOT_APPLICABLE = {
  "C07": "accuracy tolerance (2.5 % / 15 %) of a floating-point FFT/peak-picking/regression pipeline: no contract over exact reals can state or discharge it (DESIGN.md section 8); its scale-invariance clause is covered under C08",
